@@ -77,7 +77,7 @@ def run(ctx):
 
         # ---- 2. sweep -----------------------------------------------------------
         n = ctx.n(240, 6000)
-        batch = sweep.gen_batch(ctx, n)
+        batch = sweep.gen_batch(ctx, n, neutral_fraction=0.4)
         ctx.require(len(batch) >= n * 0.6, "generator produced too few in-zone programs (%d of %d)" % (len(batch), n))
 
         def do_prog(item):
